@@ -6,7 +6,7 @@ cd /verif
 for t in "$@"; do
   set -- $t; m=$1; shift
   echo "=== $m"
-  p=/tmp/wtout/$m/patch.diff; [ -f /tmp/wtout/$m/patch_rebased.diff ] && p=/tmp/wtout/$m/patch_rebased.diff
+  W=${WTOUT:-/tmp/wtout}; p=$W/$m/patch.diff; [ -f $W/$m/patch_rebased.diff ] && p=$W/$m/patch_rebased.diff
   if git -C $S/repo apply --check $p 2>/dev/null; then git -C $S/repo apply $p; else echo "  PATCH-DOES-NOT-APPLY $m"; continue; fi
   for id in "$@"; do
     out=$(CIRC_REPO=$S/repo VERIF_SCRATCH=$S VERIF_MAX_REPLAYS=1 VERIF_JOBS=6 ./check $id 2>&1); rc=$?
